@@ -2,8 +2,8 @@
 (coq/C11/Model.v, theorems in coq/C11/Props.v).
 
 hc      HillClimbSearch.estimate driven with a StructureScore subclass whose local_score reads a dyadic
-        rational table shared with the model: exact graph equality (node order, edges() order) whenever the
-        model reports no tie between additions (python set order decides those), the contract of the
+        rational table shared with the model: exact graph equality (node order, edges() order) in EVERY run,
+        score ties included (candidates come in column order since /repo d77f396), the contract of the
         property checked independently on pgmpy's result in every case, caller's start_dag unchanged.
 legal   HillClimbSearch._legal_operations on a random DAG/tabu list/option set vs the model's three
         generators: additions as a set, removals and flips as sequences, deltas exactly.
@@ -24,8 +24,8 @@ LEVEL = "proof"
 HASHSEEDS = {"quick": [0, 1, 2, 3], "thorough": [0, 1, 2, 3, 4, 5, 6, 7]}
 BUDGET_S = {"quick": 400, "thorough": 1500}  # caps for a loaded machine; quick needs ~25 s on 16 cores
 EXHAUSTIVE = {"quick": False, "thorough": False}
-RULE = ("random option combinations over 2..6 columns (names str or int): score tables generic (unique maxima) "
-        "or with few distinct values (ties), start DAG none/random with shuffled node order, fixed/black/white "
+RULE = ("random option combinations over 2..6 columns (names str or int): score tables generic (unique maxima), "
+        "with few distinct values or almost flat (many ties, compared exactly under every hash seed), start DAG none/random with shuffled node order, fixed/black/white "
         "lists as list/set/tuple, max_indegree 0..3/None, tabu_length 0/1/2/5/None, dyadic epsilon incl. 0 and "
         "negative, max_iter 0..40, zero and non-zero structure_prior_ratio, cache on/off; malformed stream: "
         "start_dag over other nodes, fixed edges closing a cycle, fixed edge naming a non-column.  "
@@ -40,8 +40,9 @@ TRUSTED_BASE = ["networkx: DiGraph storage and iteration order (nodes, adjacency
                 "case, the algorithm itself is not modelled), bfs_tree",
                 "sklearn mutual_info_score etc. and joblib: edge weights are taken from pgmpy's own weight matrix",
                 "ScoreCache/LRUCache is transparent for a score that is a function of (variable, parent tuple)",
-                "python set iteration order decides ties between additions; the model flags such runs and they are "
-                "compared through the contract only"]
+                "the only python set left on the path is set(fixed_edges): the harness hands its iteration order to the "
+                "model (it fixes where new fixed edges sit in edges()), and checks on the model that another order "
+                "gives the same trace and edge set"]
 ASSUMPTIONS = ["node names are interned to nat identifiers by the harness",
                "nx.all_simple_paths is read by its documented meaning (Props.C11_flip_test_faithful relates it to the model's test)",
                "scores are dyadic rationals so float arithmetic of the deltas is exact"]
@@ -101,6 +102,8 @@ def gen_table(rng, n, style):
                     q = Fraction(rng.randint(-2**20, 2**20), 2**10)
                 elif style == "ties":
                     q = Fraction(rng.choice([-2, -1, 0, 0, 1, 1, 2, 3]), rng.choice([1, 1, 2]))
+                elif style == "flat":
+                    q = Fraction(rng.choice([0, 0, 0, 1]) * min(r, 2), 1)
                 else:  # "penal": generic reward minus a penalty growing with the number of parents
                     q = Fraction(rng.randint(-2**12, 2**12), 2**6) - Fraction(rng.randint(0, 40) * r, 1)
                 tab[(v, frozenset(ps))] = q
@@ -129,7 +132,7 @@ def gen_hc(seed, foreign=False):
     rng = random.Random(seed)
     n = rng.choice([2, 3, 3, 4, 4, 4, 5, 5, 6])
     o = {"n": n, "names": gen_names(rng, n)}
-    o["tstyle"] = rng.choice(["generic", "generic", "penal", "ties"])
+    o["tstyle"] = rng.choice(["generic", "generic", "penal", "ties", "ties", "flat"])
     o["tab"] = gen_table(rng, n, o["tstyle"])
     # start (start and fixed edges mostly agree on a hidden order, so that their union is acyclic)
     hidden = list(range(n))
@@ -149,7 +152,7 @@ def gen_hc(seed, foreign=False):
     o["tabu_length"] = rng.choice([0, 0, 0, 1, 2, 5, 100, None])
     o["eps"] = rng.choice([Fraction(1, 2**13), Fraction(1, 2**13), Fraction(0), Fraction(1), Fraction(1, 4),
                            Fraction(5, 2), Fraction(-1, 2), Fraction(rng.randint(0, 64), 8)])
-    if o["tstyle"] == "ties" and rng.random() < 0.5:
+    if o["tstyle"] in ("ties", "flat") and rng.random() < 0.6:
         o["eps"] = rng.choice([Fraction(0), Fraction(1, 2), Fraction(1)])
     o["max_iter"] = rng.choice([0, 1, 2, 3, 5, 10, 40, 40, 40, 40])
     if rng.random() < 0.85:
@@ -386,45 +389,42 @@ def case_hc(case, drv):
         return ok(nontrivial=True, key=key, tags=tags)
     if o["bad"] in ("start-missing", "start-extra"):
         return bad("impl!=spec:bad-start-accepted", {"bad": o["bad"]}, key=key, tags=tags)
-    m_nodes_r, m_edges_r, broke, ambig, trace, tot0, tot1 = m
+    m_nodes_r, m_edges_r, broke, tie, trace, tot0, tot1 = m
     m_edges_r = [tuple(e) for e in m_edges_r]
     g_nodes = [idx[K(v)] for v in res.nodes()]
     g_edges = [(idx[K(u)], idx[K(v)]) for u, v in res.edges()]
-    tags += ["steps=%d" % min(len(trace), 8), "broke=%d" % broke, "ambig=%d" % ambig]
+    tags += ["steps=%d" % min(len(trace), 8), "broke=%d" % broke, "tie-broken=%d" % tie]
     for t in trace:
         tags.append("applied=" + "+-f"[t[0]])
     # contract, independently of the model
     zero_prior = all(p == 0 for p in o["prior"])
     seeded = set(m_edges) | set(o["fixed"])
     score_of = lambda E: total_tab(o["tab"], n, E)
-    # the loop certainly ended by `break` when strictly more iterations were allowed than increases of >= eps fit
-    spread = sum(max(q for (v, _), q in o["tab"].items() if v == w) - min(q for (v, _), q in o["tab"].items() if v == w)
-                 for w in range(n))
-    surely_broke = zero_prior and o["eps"] > 0 and o["max_iter"] > spread / o["eps"]
-    local_opt = zero_prior and o["tabu_length"] == 0 and (surely_broke or (not ambig and broke))
+    local_opt = zero_prior and o["tabu_length"] == 0 and broke
     c = contract(n, g_nodes, g_edges, m_edges, o, score_of, local_opt, zero_prior and o["eps"] >= 0)
     if c:
         return bad("impl!=spec:" + c[0], dict(c[1], impl_edges=g_edges, opts=str({k: o[k] for k in ("fixed", "black", "white", "max_indegree", "tabu_length", "eps", "max_iter")}), start=str(o["start"])), key=key, tags=tags)
     if local_opt:
         tags.append("local-optimum-checked")
-    # exact comparison
-    if not ambig:
-        if g_nodes != m_nodes_r or g_edges != m_edges_r:
-            kind = "impl!=model:hc-graph" if set(g_edges) != set(m_edges_r) else "impl!=model:hc-order"
-            return bad(kind, {"impl": [g_nodes, g_edges], "model": [m_nodes_r, m_edges_r], "trace": trace,
-                              "opts": str({k: o[k] for k in ("fixed", "black", "white", "max_indegree", "tabu_length", "eps", "max_iter", "prior")}),
-                              "start": str(o["start"]), "names": [str(x) for x in names]}, key=key, tags=tags)
-        if common.frac(tot1) != score_of(set(g_edges)) or common.frac(tot0) != score_of(seeded):
-            return bad("impl!=model:hc-total", {"model": [tot0, tot1]}, key=key, tags=tags)
-        tags.append("exact")
-    else:
-        # the model's own result must satisfy the same contract (sanity of the checkers on a second graph)
-        c = contract(n, m_nodes_r, m_edges_r, m_edges, o, score_of, zero_prior and o["tabu_length"] == 0 and broke,
-                     zero_prior and o["eps"] >= 0)
-        if c:
-            return bad("model!=spec:" + c[0], c[1], key=key, tags=tags)
-        if len(trace) == 1 and set(g_edges) != set(m_edges_r):
-            tags.append("tie-resolved-differently")
+    # exact comparison, ties included: node order, edges() order, totals
+    if g_nodes != m_nodes_r or g_edges != m_edges_r:
+        kind = "impl!=model:hc-graph" if set(g_edges) != set(m_edges_r) else "impl!=model:hc-order"
+        return bad(kind, {"impl": [g_nodes, g_edges], "model": [m_nodes_r, m_edges_r], "trace": trace, "tie": tie,
+                          "opts": str({k: o[k] for k in ("fixed", "black", "white", "max_indegree", "tabu_length", "eps", "max_iter", "prior")}),
+                          "start": str(o["start"]), "names": [str(x) for x in names]}, key=key, tags=tags)
+    if common.frac(tot1) != score_of(set(g_edges)) or common.frac(tot0) != score_of(seeded):
+        return bad("impl!=model:hc-total", {"model": [tot0, tot1]}, key=key, tags=tags)
+    tags.append("exact")
+    # the iteration order of set(fixed_edges) must not matter for the trace and the edge set (the table score
+    # depends on the parent set only): re-run the model with the fixed edges in another order
+    if len(fixed_order) >= 2:
+        alt = list(reversed(fixed_order)) if case["seed"] % 2 else sorted(fixed_order)
+        if alt != fixed_order:
+            m2 = drv.call("c11_hc", [cfg_obj(n, alt, o), table_obj(o["tab"]), m_nodes, [list(e) for e in m_edges]])
+            if m2[4] != trace or sorted(map(tuple, m2[1])) != sorted(m_edges_r) or m2[2] != broke:
+                return bad("model:fixed-order-matters", {"order1": fixed_order, "order2": alt, "trace1": trace, "trace2": m2[4]},
+                           key=key, tags=tags)
+            tags.append("fixed-order-permuted")
     return ok(nontrivial=len(trace) > 0, key=key, tags=tags)
 
 
@@ -471,17 +471,14 @@ def case_legal(case, drv):
                                [[kn[k], [u, v]] for k, (u, v) in tabu]])
     mm = [[(t[0], tuple(t[1]), common.frac(t[2])) for t in part] for part in m]
     g_add = [t for t in got if t[0] == 0]
-    g_rest = [t for t in got if t[0] != 0]
     tags = ["legal n=%d" % n, "tabu-len=%d" % len(tabu), "ops=%d" % min(len(got), 20),
             "adds=%d" % min(len(g_add), 10), "dels=%d" % len(mm[1]), "flips=%d" % len(mm[2])]
     detail = {"nodes": [idx[K(v)] for v in g.nodes()], "edges": [(idx[K(u)], idx[K(v)]) for u, v in g.edges()],
               "tabu": tabu, "opts": str({k: o[k] for k in ("fixed", "black", "white", "max_indegree", "prior")})}
-    if got[:len(g_add)] != g_add:
-        return bad("impl!=model:legal-chain-order", detail, key=key, tags=tags)
-    if sorted(g_add) != sorted(mm[0]) or len(set(g_add)) != len(g_add):
-        return bad("impl!=model:legal-additions", dict(detail, impl=str(sorted(g_add)), model=str(sorted(mm[0]))), key=key, tags=tags)
-    if g_rest != mm[1] + mm[2]:
-        return bad("impl!=model:legal-removals-flips", dict(detail, impl=str(g_rest), model=str(mm[1] + mm[2])), key=key, tags=tags)
+    if got != mm[0] + mm[1] + mm[2]:
+        if sorted(got) == sorted(mm[0] + mm[1] + mm[2]):
+            return bad("impl!=model:legal-order", dict(detail, impl=str(got), model=str(mm[0] + mm[1] + mm[2])), key=key, tags=tags)
+        return bad("impl!=model:legal-operations", dict(detail, impl=str(got), model=str(mm[0] + mm[1] + mm[2])), key=key, tags=tags)
     return ok(nontrivial=len(es) > 0 or len(got) > 0, key=key, tags=tags)
 
 
